@@ -12,7 +12,7 @@
    Answers:
      dir : <write: ok|werror> TAB <load: ok|error|hang> TAB <listing> TAB wf=<0|1>;failed=<k|->;cap=<n>;depth=<d>
            (failed = download goroutines with an error to send, cap = capacity of errChan)
-     file: <ok|error> TAB <listing> TAB prior_exec=<0|1>;possible=<0|1>;exec_recorded=<0|1>
+     file: <ok|error> TAB <listing> TAB prior_exec=<0|1>;exec_recorded=<0|1>
    listing: comma separated, pre-order, "<hexpath>:f:<x>:<hexcontent>" | "<hexpath>:d" | "<hexpath>:l:<hextarget>";
    the root itself has path "-". *)
 open Model
@@ -96,8 +96,8 @@ let do_file = function
       | Done n -> ("ok", show n)
       | Error -> ("error", "-")
       | Stuck -> ("hang", "-") in
-    Printf.sprintf "%s\t%s\tprior_exec=%d;possible=%d;exec_recorded=%d" cls lst
-      (if file_restore_exec d then 1 else 0) (if file_restore_possible d then 1 else 0) (if fm.fm_exec then 1 else 0)
+    Printf.sprintf "%s\t%s\tprior_exec=%d;exec_recorded=%d" cls lst
+      (if file_restore_exec d then 1 else 0) (if fm.fm_exec then 1 else 0)
   | _ -> failwith "file: arity"
 
 let () =
